@@ -202,8 +202,38 @@ def parseBatchOp (j : Json) : Option EraVerif.Model.Pool.Op :=
   | some "r" => do let k ← getNat j "k"; pure (.remove k)
   | _ => none
 
+/-- quota probe: insert fresh non-allowed keys 1000, 1001, … (at most 8) until one is refused, then remove the
+    admitted ones again; returns the pool afterwards and how many were admitted -/
+def probePool (p : Pool) : Pool × Nat :=
+  let rec go (fuel : Nat) (i : Nat) (p : Pool) : Pool × Nat :=
+    match fuel with
+    | 0 => (p, i)
+    | fuel + 1 =>
+      let (p', o) := p.insert (1000 + i) 0
+      if o == .ok then go fuel (i + 1) p' else (p, i)
+  let (p1, n) := go 8 0 p
+  ((List.range n).foldl (fun q i => (q.remove (1000 + i)).1) p1, n)
+
 def handlePool (s : St) (op : String) (j : Json) : St × Json :=
   match op with
+  | "pool_probe" =>
+    let (p, n) := probePool s.pool
+    ({ s with pool := p }, Json.mkObj [("free", natJ n), ("cur", poolObs p)])
+  | "pool_contended" =>
+    -- the calls queue on the (fair, FIFO) sender lock in the order listed and each is atomic: the outcome is that of
+    -- the sequential run in that order
+    match getArr j "ops" with
+    | none => (s, badOp)
+    | some a =>
+      match a.toList.mapM parseBatchOp with
+      | none => (s, badOp)
+      | some ops =>
+        let (p, os) := s.pool.run ops
+        if os.contains .underflow then (s, Json.mkObj [("panic", Json.str "pool.rs extra_count underflow")]) else
+        let name := fun (o : Obs) => match o with
+          | .removed => "done" | .absent => "done" | o => obsName o
+        ({ s with pool := p },
+         Json.mkObj [("res", Json.arr (os.map (fun o => Json.str (name o))).toArray), ("cur", poolObs p)])
   | "pool_new" =>
     match getNatList j "allowed", getNat j "limit" with
     | some a, some l =>
